@@ -59,7 +59,8 @@ def program(rng, **opts):
         n = 0
         for t in list(P.toks):
             if t.kind != "comment" and rng.random() < .08:
-                n += 1; t.lead.append(gen.Tok("comment", "// gap %d %s" % (n, rng.choice(["", "ü€", "a, b", "x := 1;"]))))
+                for _ in range(rng.choice([1, 1, 1, 2, 3])):
+                    n += 1; t.lead.append(gen.Tok("comment", "// gap %d %s" % (n, rng.choice(["", "ü€", "a, b", "x := 1;", "a\rb := 1;"]))))
         P.index()
     eol = rng.choice(["\n", "\n", "\r\n"])
     style = rng.choice(["random", "random", "spaced", "compact", "lines"])
@@ -99,10 +100,10 @@ def proc_of_tokens(P):
 
 
 def shadowing_local(P, tok, pmap_=None):
-    """Known-finding class K-C1x-shadow: an identifier in *type position* (bound to a type declaration) inside a procedure that has a
-    parameter or local variable of the same name. SPL resolves parameter types in the global scope, so the occurrence denotes the
-    type; the request handlers look every identifier up locals-first and answer for the local. Returns that local, or None."""
-    if tok.kind != "id" or not isinstance(tok.bind, gen.Decl) or tok.bind.kind != "type": return None
+    """Known-finding class K-C1x-shadow: an identifier that denotes a global entity *by its position* - a type name in type position, or
+    the procedure's own name in its header - inside a procedure that has a parameter or local variable of the same name. The request
+    handlers look every identifier up locals-first without regard to its position and answer for the local. Returns that local, or None."""
+    if tok.kind != "id" or not isinstance(tok.bind, gen.Decl) or tok.bind.kind not in ("type", "proc"): return None
     pm = pmap_ if pmap_ is not None else proc_of_tokens(P)
     p = pm.get(tok.uid)
     if p is None: return None
